@@ -11,6 +11,16 @@ CHECKS = {
    text="Exhaustive within the bound: every history of New/Set over a tree of <=3 (quick) / <=4 (thorough) contexts, 3 keys (one a built-in helper name), values {1,2,nil}, 5 root data maps; the model-level theorems Agree (as-built lookup = declarative chain semantics), Frame (a Set never changes what non-descendants observe, action property) and UserWins hold in the model, and every history is replayed on the real Context with the full Value/Has table compared. Beyond the bound: seeded random walks (all successors of every visited state). Code->spec: all context constructions/writes/reads of the repository's 350 tests are accepted by the trace spec; a corrupted trace is rejected.",
    note="Trusted: TLC, the Go harness's materialisation of the three abstract values, the hooks' fingerprints. Bounded in tree size and history length; unbounded histories only sampled.",
    design="§6 C10"),
+ "C06": dict(
+   technique="TLC explicit-state enumeration of expression trees (GenExpr.tla, hole expansion) evaluated by the TLA+ reference semantics PlushSem.tla; every tree replayed into real plush.Render in three parenthesisations (conformance: spec -> code)",
+   text="Exhaustive within the bound: all expression trees with <=2 operators (13 binary operators and !) over a pool of 8 (quick) / 20 (thorough) literals, variables and probe calls; each tree is evaluated by the reference semantics (documented operator meaning, precedence table, left associativity, short-circuit, truncating division, errors) and printed with minimal, redundant and full parentheses; the real renderer must produce the model's value (or an error where the model says error) and the recorded helper-call sequence must match (short-circuit). Beyond the bound: seeded random trees with 3-5 operators.",
+   note="Trusted: TLC, PlushSem.tla as the documented meaning, the harness's materialisation of values. Cases whose meaning the property leaves open (cross-kind ==, string vs non-string comparison, bool arithmetic, float division by a non power of two) are only checked for totality.",
+   design="§6 C06"),
+ "C07": dict(
+   technique="TLC explicit-state enumeration of truthiness matrix and if/else-if/else chains (GenIf.tla) with model-level theorems as invariants; every case replayed into real plush.Render with recording probe helpers",
+   text="Exhaustive: 31 value kinds (incl. unknown identifier, typed nil pointers, empty collections, other numeric widths) x 6 contexts; all chains of <=3 (quick) / <=5 (thorough) probe conditions x every truth assignment x with/without else x 5 placements. TLC checks KindTheorem and ChainTheorem (exactly the first truthy branch, evaluated conditions are exactly the prefix, contexts agree) on the reference semantics; the real renderer's output and recorded probe sequence must equal the model's.",
+   note="Trusted: TLC, PlushSem.tla, harness kind registry. Truthiness of HTMLer values with empty HTML is not covered (statement speaks of empty HTML values).",
+   design="§6 C07"),
 }
 
 NOT_YET = "check not built yet in this session (work in progress, see DESIGN.md §8)"
